@@ -203,6 +203,9 @@ def compare(beh: list[dict], fields=FIELDS):
             os_ = sorted(_norm(obs["share"]))
             if ps != os_:
                 return (i, "share", 0, ps, os_)
+        # arrays the caller handed in (operands, index arrays, masks, seeds) are never written to (C12)
+        if obs.get("mut"):
+            return (i, "inputs", 0, 0, obs["mut"])
     if len(tr) != len(beh):
         return (len(tr), "length", 0, len(beh), len(tr))
     return None
